@@ -112,8 +112,10 @@ ensures
         // [C10.parent_ready_for_any_certified_block_is_applied] whatever block the pool reports as
         // the ready parent - also another block of the SAME slot as the optimistic parent (equivocating previous leader) -
         // the producer switches to it instead of crashing; the same block is a no-op
-        (received is Ok && (received->Ok_0).1 == parent_block_id.1) ==> final(payload).parent == old(payload).parent,
-        (received is Ok && (received->Ok_0).1 != parent_block_id.1) ==> final(payload).parent == Some(received->Ok_0),
+        // ("the same block" is the same block ID: the block hash does not cover the slot, the same content signed for another slot of
+        //  the same leader is another block - finding F36: code and contract compared the hashes only)
+        (received is Ok && received->Ok_0 == *parent_block_id) ==> final(payload).parent == old(payload).parent,
+        (received is Ok && received->Ok_0 != *parent_block_id) ==> final(payload).parent == Some(received->Ok_0),
         // [C10.dropped_parent_ready_sender_is_survived] the pool drops the sender when it prunes the window's slot (a leader
         // lagging behind finalization): no crash, the slice keeps its parent (finding F16: the `expect` failed this
         // obligation before fix 1fefaba)
